@@ -59,6 +59,8 @@ pub fn num_of(j: &J) -> f64 {
                 f
             }
         }
+        // a number outside the model's exact classes that came from a real parse (program corpus): its shortest round-trip text
+        "inexact" if j["text"].is_string() => j["text"].as_str().unwrap().parse().unwrap(),
         c => panic!("number class {} has no concrete value", c),
     }
 }
